@@ -258,6 +258,8 @@ def oracle(c, o):
                 xs = [v for v in x if v is not None]
                 ys = [v for v in y if v is not None]
                 want = c03.spec_measure(cc, xs, ys, mask=np.array(mask))
+                if isinstance(want, float) and np.isnan(want):
+                    continue          # the measure is undefined on the remaining entries (e.g. a constant RDM): nothing is claimed
                 if not np.isclose(o['sim'][i][j], want, rtol=rtol, atol=rtol):
                     return (f"compare({c['method']}) with common missing entries: entry ({i},{j}) is {o['sim'][i][j]}, "
                             f"the measure on the entry-deleted RDMs is {want}")
